@@ -1,7 +1,20 @@
 #!/bin/bash
-# Runs the repository's pinned baseline (42 stable tests) with the hook guard OFF:
-# plain configure of /repo/_build (no -DSVT_AV1_VERIF anywhere), then ctest.
-set -e
-cmake -G Ninja -S /repo -B /repo/_build -DCMAKE_BUILD_TYPE=RelWithDebInfo -DBUILD_TESTING=ON >/dev/null
-cmake --build /repo/_build -j16 >/dev/null
-ctest --test-dir /repo/_build -j8 --timeout 900 --output-junit /repo/_build/verif_baseline.junit.xml
+# Runs the repository's pinned baseline (the 42 stable API tests of /root/.vp/BASELINE.json) with the hook guard OFF:
+# plain configure of /repo/_build (no -DSVT_AV1_VERIF anywhere), the API test binary only (the default target also wants to
+# git-clone libaom for the end-to-end tests, which cannot work offline), then every stable test must be reported OK.
+set -u
+cmake -G Ninja -S /repo -B /repo/_build -DCMAKE_BUILD_TYPE=RelWithDebInfo -DBUILD_TESTING=ON > /repo/_build/verif_configure.log 2>&1 || { echo "configure failed"; exit 2; }
+ninja -C /repo/_build SvtAv1ApiTests > /repo/_build/verif_build.log 2>&1 || { echo "build failed"; tail -5 /repo/_build/verif_build.log; exit 2; }
+if grep -rq "SVT_AV1_VERIF" /repo/_build/CMakeCache.txt; then echo "guard is ON in this build"; exit 2; fi
+LD_LIBRARY_PATH=/repo/Bin/RelWithDebInfo /repo/Bin/RelWithDebInfo/SvtAv1ApiTests --gtest_filter='EncParam*:EncApi*' > /repo/_build/verif_baseline.log 2>&1
+python3 - <<'PY'
+import json, re, sys
+names = json.load(open('/root/.vp/BASELINE.json'))['stable_pass']
+log = open('/repo/_build/verif_baseline.log', errors='replace').read()
+ok = set(m.group(1).replace('.', '::') for m in re.finditer(r'\[\s+OK \] ([\w.]+)', log))
+missing = [n for n in names if n not in ok]
+print('%d of %d pinned tests passed with the guard off' % (len(names) - len(missing), len(names)))
+for n in missing[:10]:
+    print('NOT PASSED:', n)
+sys.exit(1 if missing else 0)
+PY
